@@ -323,10 +323,27 @@ def gen_publisher(out):
     if "incident_dir = filepath.FilePath(self._logger.logdir)" not in texts:
         raise P.Untranslatable("remote_get_incident: incident_dir construction changed")
     ext1 = None
-    for t in texts:
+    fpvar = None
+    guard_at = None
+    for i, (st, t) in enumerate(zip(body, texts)):
+        m = re.fullmatch(r"(\w+) = incident_dir\.child\(name\)", t)
+        if m:
+            fpvar = m.group(1)
+            continue
         m = re.fullmatch(r"abs_fn = incident_dir\.child\(name\)\.path \+ ('[^'/]+')", t)
         if m:
             ext1 = ast.literal_eval(m.group(1))
+            continue
+        m = re.fullmatch(r"abs_fn = (\w+)\.path \+ ('[^'/]+')", t)
+        if m and m.group(1) == fpvar:
+            ext1 = ast.literal_eval(m.group(2))
+            continue
+        if isinstance(st, ast.If) and fpvar and U(st.test) == "%s.parent() != incident_dir" % fpvar \
+                and st.body and isinstance(st.body[-1], ast.Raise) and not st.orelse:
+            guard_at = i
+            continue
+        if re.match(r"abs_fn\s*\+?=", t):
+            raise P.Untranslatable("remote_get_incident: abs_fn assigned in an unrecognised way: " + t)
     if ext1 is None:
         raise P.Untranslatable("remote_get_incident: abs_fn construction changed: %s" % texts)
     trys = [s for s in body if isinstance(s, ast.Try)]
@@ -337,9 +354,7 @@ def gen_publisher(out):
     if not m or "fn = abs_fn" not in U(trys[0].body[1]) or "events = flogfile.get_events(fn)" not in tt:
         raise P.Untranslatable("remote_get_incident: file selection changed: %s" % tt)
     ext2 = ast.literal_eval(m.group(1))
-    guards = [s for s in body if isinstance(s, ast.If) and "parent()" in U(s.test) and s.body
-              and isinstance(s.body[-1], ast.Raise)]
-    guard = "GuardParentEq" if any(body.index(g) < body.index(trys[0]) for g in guards) else "NoGuard"
+    guard = "GuardParentEq" if (guard_at is not None and guard_at < body.index(trys[0])) else "NoGuard"
     out.append("(* logging/publish.py LogPublisher.remote_get_incident *)")
     out.append("Definition publisher_prefix : list N := %s.  (* %r *)" % (blist(prefix), prefix))
     out.append("Definition publisher_guard : guardk := %s." % guard)
